@@ -52,6 +52,7 @@ func runC05(c *Checker) {
 	sort.Strings(B.outOfScope)
 	c.extra["functions_out_of_scope"] = B.outOfScope
 	c.checkNilFields(reach)
+	c.checkDoneImpliesParsable()
 
 	// loops
 	loops := B.checkLoops()
